@@ -6,10 +6,24 @@ _df_cache = {}
 
 
 def df_of(body, facts):
-    k = (id(facts), body.path)
+    k = (id(facts), body.path, id(body) if getattr(body, "inlined", False) else 0)
     if k not in _df_cache:
-        _df_cache[k] = Dataflow(body, facts)
+        # the disjunctive engine; its `state_in` is the join over the per-path states, which is at least as precise as the
+        # plain join-at-merge fixpoint and keeps guard/boolean correlations that the latter loses
+        _df_cache[k] = dj_of(body, facts)
     return _df_cache[k]
+
+
+_dj_cache = {}
+
+
+def dj_of(body, facts):
+    """cached disjunctive dataflow of a body"""
+    from .dataflow import DisjFlow
+    k = (id(facts), body.path, id(body) if getattr(body, "inlined", False) else 0)
+    if k not in _dj_cache:
+        _dj_cache[k] = DisjFlow(body, facts)
+    return _dj_cache[k]
 
 
 _LT = None
@@ -103,6 +117,8 @@ def yields(body):
 def switch_on(body, df, expr):
     """blocks whose SwitchInt scrutinee is `expr`"""
     out = []
+    if expr[0] == "disc" and hasattr(df, "disc_root"):
+        expr = ("disc", df.disc_root(expr[1]))
     for bb in body.live_blocks:
         t = body.term(bb)
         if t[0] == "switch" and df.expr_of_operand(t[1]) == expr:
@@ -261,4 +277,138 @@ def guard_across_yield(body, type_needle="MutexGuard"):
             reach = body.reachable_after(dbb, removed_nodes=set(drops) | set(moves))
             for y in ys & reach:
                 out.append((l, dbb, y))
+    return out
+
+
+def closure_family(facts, b, depth=3):
+    """b plus every closure / coroutine body created (transitively) by its statements - found through the aggregate
+    statements, so closures of helper functions inlined into b are included and the closure's path prefix does not matter;
+    closures that are only *named* under b's path (never built by an aggregate we can see) are added by prefix."""
+    out, seen = [b], {b.path}
+    work = [b]
+    for _ in range(depth):
+        nxt = []
+        for x in work:
+            for bb in x.live_blocks:
+                for st in x.stmts(bb):
+                    if st[0] == "A" and st[2][0] == "agg" and st[2][1][0] in ("closure", "coroutine", "coroutine_closure"):
+                        cp = st[2][1][1]
+                        if cp not in seen and cp in facts.bodies:
+                            seen.add(cp)
+                            cb = facts.body(cp)
+                            out.append(cb)
+                            nxt.append(cb)
+        work = nxt
+    for q in facts.bodies.keys():
+        if q not in seen and q.startswith(b.path + "::{closure") and "::promoted[" not in q:
+            seen.add(q)
+            out.append(facts.body(q))
+    return out
+
+
+def norm_cmps(st):
+    """comparison facts of an abstract state in canonical form: [(op, a, b, truth)] with op in {"Lt", "Eq"}:
+    `a < b` is truth / `a == b` is truth. Gt/Ge/Le/Ne keys and swapped operands are folded in, so a rule does not depend on
+    whether the source says `len < 0`, `0 > len` or `!(len >= 0)`. For Eq the operands are ordered (constants last)."""
+    out = []
+    for k, v in (st or {}).items():
+        if k[0] != "bin" or v[0] != "in" or len(v[1]) != 1:
+            continue
+        t = next(iter(v[1]))
+        if t not in (0, 1):
+            continue
+        op, a, b = k[1], k[2], k[3]
+        if op == "Lt":
+            out.append(("Lt", a, b, t))
+        elif op == "Gt":
+            out.append(("Lt", b, a, t))
+        elif op == "Ge":
+            out.append(("Lt", a, b, 1 - t))
+        elif op == "Le":
+            out.append(("Lt", b, a, 1 - t))
+        elif op in ("Eq", "Ne"):
+            if a[0] == "const" and b[0] != "const":
+                a, b = b, a
+            out.append(("Eq", a, b, t if op == "Eq" else 1 - t))
+    return out
+
+
+def cmp_truth(st, op, a, b):
+    """1 / 0 / None: is `a op b` known in state st (op in Lt Le Gt Ge Eq Ne), whatever form the source used"""
+    neg = False
+    if op == "Gt":
+        op, a, b = "Lt", b, a
+    elif op == "Ge":
+        op, neg = "Lt", True
+    elif op == "Le":
+        op, a, b, neg = "Lt", b, a, True
+    elif op == "Ne":
+        op, neg = "Eq", True
+    for o, x, y, t in norm_cmps(st):
+        if o != op:
+            continue
+        if (x, y) == (a, b) or (op == "Eq" and (x, y) == (b, a)):
+            return (1 - t) if neg else t
+    return None
+
+
+def bool_edges(body, sw):
+    """(true_target, false_target) of a SwitchInt on a boolean, whichever value the terminator lists explicitly"""
+    edges, other = switch_edges(body, sw)
+    if 0 in edges:
+        return edges.get(1, other), edges[0]
+    if 1 in edges:
+        return edges[1], other
+    return other, other
+
+
+def creation_site(facts, child):
+    """(parent body, bb, stmt index, aggregate stmt) where the closure / coroutine `child` is built, or None"""
+    par = facts.body(child.parent) if child.parent else None
+    if par is None:
+        return None
+    for bb in sorted(par.live_blocks):
+        for j, st in enumerate(par.stmts(bb)):
+            if st[0] == "A" and st[2][0] == "agg" and st[2][1][0] in ("closure", "coroutine", "coroutine_closure") and st[2][1][1] == child.path:
+                return par, bb, j, st
+    return None
+
+
+def captured_context(facts, child, st_child):
+    """Abstract states of the PARENT at the point where the closure/coroutine `child` is created, restricted to those that are
+    consistent with what `st_child` knows about the captured variables. Lets a rule combine a guard evaluated in the parent
+    (`let gate = if self.flag { Some(..) } else { None }`) with the use inside the child (`match gate { Some(..) => .. }`).
+    Returns None when the creation site cannot be found."""
+    from .dataflow import vs_meet, vs_empty
+    site = creation_site(facts, child)
+    if site is None:
+        return None
+    par, pbb, pj, stmt = site
+    ops = stmt[2][2]
+    dj = dj_of(par, facts)
+    # child constraints on upvars: keys rooted at the environment local _1 whose first element is the upvar index
+    cons = []
+    for k, v in (st_child or {}).items():
+        if k[0] in ("disc", "val") and k[1][0] == 1 and k[1][1]:
+            first = k[1][1][0]
+            if first.isdigit() and int(first) < len(ops) and ops[int(first)][0] in ("c", "m"):
+                pp = dj.canon.path(ops[int(first)][1])
+                pkey = (k[0], (pp[0], pp[1] + tuple(k[1][1][1:])))
+                if k[0] == "disc":
+                    pkey = ("disc", dj.disc_root(pkey[1]))
+                cons.append((pkey, v))
+    out = []
+    for fs in dj.states.get(pbb, ()):
+        sts = [dict(fs)]
+        for s in par.stmts(pbb)[:pj]:
+            sts = [n for st in sts for n in dj.split_stmt(st, s)]
+        for st in sts:
+            ok = True
+            for pkey, v in cons:
+                cur = st.get(pkey)
+                if cur is not None and vs_empty(vs_meet(cur, v)):
+                    ok = False
+                    break
+            if ok:
+                out.append(st)
     return out
